@@ -68,6 +68,7 @@ POOLS = {
     "field_header_disambiguated": [["book.class"], ["class.name"], ["import.from.x"], ["a"], [""], ["a..b"], [".class"], ["type.type"], ["name"]],
     "routing_param_disambiguated_field": [["book.class"], ["class"], ["scope.type"], ["a"], [""], ["name"]],
     "client_method_name": [[n, b] for n in ("Import", "GetBook", "Class", "import", "None", "Async", "_Get", "", "Return") for b in (False, True)],
+    "sort_lines": [[t, d] for t in ("b\na\nb\n", "\nimport z\nimport a\n\nimport a\n", "", "\n", "x", "  b\n a\n", "B\na\nA\nb", "a\n\n\nb\n \n", "ab\na\nabc\n", "é\nz\n") for d in (True, False)],
     "make_private": [["a"], ["_a"], [""], ["__a"], ["A_b"]],
     "coerce_response_name": [["$resp"], ["$resp.name"], ["x.$resp"], ["$resp$resp"], ["resp"], [""]],
     "address_resolve": [[pk, sel] for pk in ([], ["acme"], ["acme", "lib", "v1"]) for sel in ("Book", "a.Book", ".Book", "", ".", "Outer.Inner", "Book.")],
@@ -86,6 +87,7 @@ GENS = {
     "field_header_disambiguated": lambda r: [".".join(r.pick(["class", "type", "format", "book", "from", "name", "x", "license"]) for _ in range(r.randint(1, 4)))],
     "routing_param_disambiguated_field": lambda r: [".".join(r.pick(["class", "type", "format", "book", "from", "name", "x", "license"]) for _ in range(r.randint(1, 4)))],
     "client_method_name": lambda r: [r.pick(["Get", "List", "Import", "Pass", "Yield", "Global", "lambda", "Del", "Book", "_x"]), r.maybe()],
+    "sort_lines": lambda r: ["".join(r.pick(["import a", "import b", "from x import y", "\n", "\n", " ", "  z", "A", "a", "b1", "\t"]) for _ in range(r.randint(0, 9))), r.maybe()],
     "make_private": lambda r: [rand_str(r, 5, ws=False)],
     "coerce_response_name": lambda r: ["".join(r.pick(["$resp", ".", "a", "$", "resp", "_"]) for _ in range(r.randint(0, 5)))],
     "address_resolve": lambda r: [[r.pick(["acme", "lib", "v1", "a", "x_y"]) for _ in range(r.randint(0, 3))], rand_str(r, 6, ws=False)],
